@@ -10,6 +10,10 @@ SOURCES = {
 }
 
 
+UNUSED_DIRECTIVES = {
+    # suppression comments that silence nothing: `scan -U` removes them (fix of the built-in unused-suppression rule)
+    'src/e.js': '// ast-grep-ignore\nlet q1 = 1;\n// ast-grep-ignore: nope\nlet q2 = 2;\nlet q3 = 3; // ast-grep-ignore\nlet q4 = 4; // ast-grep-ignore: zz, yy\n// ast-grep-ignore\n// ast-grep-ignore: r9\nlet q5 = 5;\n',
+}
 SOURCES_EXTRA = {
     'src/d.js': 'x = (((1)));\ny = [1, "two", [3, (4)], foo(5, [6])];\nz = a.b(c, 7)("s", 8);\nfoo((9), ("t"), w);\n',
 }
@@ -54,9 +58,14 @@ def random_base(rng):
             u = {'kind': k, 'has': {'nthChild': {'position': 1, 'ofRule': ref}, 'stopBy': 'end'}}
         utils[name] = u
     # some utilities become global ones (they may only reference other globals, so take a prefix)
-    n_glob = rng.choice([0, 0, 1, 2])
+    n_glob = rng.choice([0, 0, 1, 2, 2, 3])
     glob_names = names[:n_glob]
     globals_ = [{'id': g, 'language': 'JavaScript', 'rule': utils.pop(g)} for g in glob_names]
+    if len(globals_) >= 2 and rng.random() < 0.7:
+        # a global utility with a local utility of its own that refers to another global one
+        g = globals_[1]
+        g['utils'] = {'L0': {'matches': globals_[0]['id']}}
+        g['rule'] = {'any': [{'matches': 'L0'}, g['rule']]}
     rules = []
     for i in range(rng.randint(2, 4)):
         target = rng.choice(names[len(names) // 2:])
@@ -135,6 +144,7 @@ def variant(rules, rng):
 
 def write_project(d, rules, globals_, rng, layout, fixed=True):
     tree = dict(SOURCES)
+    tree.update(UNUSED_DIRECTIVES)
     if not fixed:
         tree.update(SOURCES_EXTRA)
     tree['sgconfig.yml'] = 'ruleDirs: [rules]\nutilDirs: [utils]\ntestConfigs:\n  - testDir: tests\n'
